@@ -540,7 +540,7 @@ fn payload_values_case<const N: usize>() {
 #[kani::stub(fcgi::ProtocolVariables::write_response, crate::verif_kani::write_response_model)]
 fn c02_payload_values_3() { payload_values_case::<3>(); }
 
-// @harness name=c02_payload_values_2 props=C02,C04,C03 tier=quick timeout=1500 rmbody=ioerr,nogrow mem=20 dead=2
+// @harness name=c02_payload_values_2 props=C02,C04,C03 tier=thorough timeout=7000 rmbody=ioerr,nogrow mem=30 dead=2
 // @bound State::Values with any accumulated set; 24-byte buffer, fixed geometry with exactly 2 raw bytes (symbolic contents: at most the empty pair), payload_rem 1..65535; parse_name / write_response replaced by the E5 models; E8
 // @functions stream::Parser::parse_payload, NVIter<&[u8]>::next, parser::parse_nv_var
 #[kani::proof]
@@ -672,7 +672,7 @@ fn c03_stream_initial() {
 
 // ------------------------------------------------------------------------------------------------ conversions (C05)
 
-// @harness name=c05_stream_into_input props=C05,C03 tier=quick timeout=900
+// @harness name=c05_stream_into_input props=C05,C03 tier=quick timeout=900 rmbody=nodropreq
 // @bound every geometry of the 24-byte buffer, every payload_rem / padding_rem: into_input and into_request_parser refuse (Interrupted) exactly off a record boundary and otherwise hand over exactly the raw bytes in order
 // @functions stream::Parser::into_input, stream::Parser::into_request_parser, stream::Parser::discard_stream, request::Parser::from_parser
 #[kani::proof]
@@ -764,4 +764,72 @@ fn c02_parse_trace_cut() {
     kani::cover!(cut == 0 || cut == 32, "everything at once");
     std::mem::forget(r1); std::mem::forget(r2);
     std::mem::forget(p);
+}
+
+// ------------------------------------------------------------------------------------------------ contract stub of parse() for the async glue harnesses
+// `Request::poll_input / record_boundary / close` are checked against EVERY behaviour `stream::Parser::parse` may
+// show, by replacing parse() with this nondeterministic stub (the real parse() is the subject of the C02 harnesses).
+// Ghost state lets the async harnesses relate what the parser delivered to what the caller received.
+pub(crate) static mut GS_STREAM: [u8; 8] = [0; 8];     // bytes the "parser" delivers, in order
+pub(crate) static mut GS_POS: usize = 0;               // how many of them have been delivered so far
+pub(crate) static mut GS_OUT_TOTAL: usize = 0;         // reply bytes produced so far
+pub(crate) static mut GS_PARSE_CALLS: usize = 0;
+pub(crate) static mut GS_FED: usize = 0;               // transport bytes handed to parse() so far
+pub(crate) static mut GS_ERR_BUDGET: usize = 0;        // how many calls may fail
+pub(crate) static mut GS_END: bool = false;            // once the stream ended it stays ended (sticky end of stream)
+
+pub(crate) fn parse_contract<'a>(p: &mut Parser<'a>, new_input: usize, dest: Option<&mut [u8]>) -> Result<Status, Error> where 'a: 'a {
+    // documented preconditions (the real function asserts them)
+    assert!(dest.is_none() || p.parsed_start == p.gap_start, "parse(Some(dest)) called with a non-empty stream buffer");
+    assert!(new_input <= p.buffer.len() - p.free_start, "parse() told about more input than the input buffer holds");
+    unsafe {
+        GS_PARSE_CALLS += 1;
+        GS_FED += new_input;
+        p.free_start += new_input;
+        if GS_ERR_BUDGET > 0 && kani::any() {
+            GS_ERR_BUDGET -= 1;
+            return Err(if kani::any() { Error::AbortRequest } else { Error::UnknownVersion(9) });
+        }
+        // consume any amount of raw protocol data
+        let rs: usize = kani::any();
+        kani::assume(p.raw_start <= rs && rs <= p.free_start);
+        p.raw_start = rs;
+        // the record in progress may or may not be finished by this call
+        if kani::any() { p.payload_rem = 0; p.padding_rem = 0; } else { p.payload_rem = 1; }
+        // replies: 0 or 2 bytes
+        let mut out = 0;
+        if kani::any() { p.output.push(0xAB); p.output.push(0xCD); out = 2; GS_OUT_TOTAL += 2; }
+        // stream data
+        let mut k: usize = 0;
+        let mut end = GS_END || p.stream.is_none();
+        if !end {
+            let avail = 8 - GS_POS;
+            match dest {
+                Some(buf) => {
+                    k = kani::any();
+                    kani::assume(k <= buf.len() && k <= avail && k <= 3);
+                    let mut i = 0;
+                    while i < k { buf[i] = GS_STREAM[GS_POS + i]; i += 1; }
+                }
+                None => {
+                    k = kani::any();
+                    kani::assume(k <= p.raw_start - p.gap_start && k <= avail && k <= 3);
+                    let mut i = 0;
+                    while i < k { p.buffer[p.gap_start + i] = GS_STREAM[GS_POS + i]; i += 1; }
+                    p.gap_start += k;
+                }
+            }
+            GS_POS += k;
+            if kani::any() { end = true; GS_END = true; }
+        }
+        Ok(Status { stream: k, stream_end: end, output: out })
+    }
+}
+
+/// Contract stub of `compress()` for the async glue harnesses (which only call it with an empty stream buffer):
+/// geometry as after the real function, contents of the raw region not moved (the parser contract never reads them).
+pub(crate) fn compress_contract<'a>(p: &mut Parser<'a>) where 'a: 'a {
+    assert!(p.parsed_start == p.gap_start, "glue harness: compress() called with unread stream data");
+    let rlen = p.free_start - p.raw_start;
+    p.parsed_start = 0; p.gap_start = 0; p.raw_start = 0; p.free_start = rlen;
 }
